@@ -69,6 +69,10 @@ pub fn gen_scenario(rng: &mut Rng) -> Scenario {
                 &[0x30, 0x10, 0x02, 0x05, 0x01, 0, 0, 0, 0x01, 0x6b, 0x07, 0x0a, 0x01, 0x00, 0x04, 0x00, 0x04, 0x00],
                 &[0x30, 0x10, 0x02, 0x05, 0x00, 0x80, 0, 0, 0, 0x6b, 0x07, 0x0a, 0x01, 0x00, 0x04, 0x00, 0x04, 0x00],
                 &[0x30, 0x0c, 0x02, 0x01, 0xff, 0x6b, 0x07, 0x0a, 0x01, 0x00, 0x04, 0x00, 0x04, 0x00],
+                // a response whose Controls list holds something that is not a Control (a bare OCTET STRING), and one whose
+                // Controls element is not a list at all
+                &[0x30, 0x15, 0x02, 0x01, 0x01, 0x6b, 0x07, 0x0a, 0x01, 0x00, 0x04, 0x00, 0x04, 0x00, 0xa0, 0x07, 0x04, 0x05, 0x31, 0x2e, 0x32, 0x2e, 0x33],
+                &[0x30, 0x13, 0x02, 0x01, 0x02, 0x6b, 0x07, 0x0a, 0x01, 0x00, 0x04, 0x00, 0x04, 0x00, 0x80, 0x05, 0x31, 0x2e, 0x32, 0x2e, 0x33],
             ])
             .to_vec(),
         ),
@@ -1127,4 +1131,143 @@ pub fn real_transports(ctx: &Ctx) -> Report {
     rt.shutdown_background();
     rep.sample(json!({"lane":"real_transports","starttls_establishment_kinds":STARTTLS_KINDS,"transports":["tcp loopback","unix socket pair (StdStream::Unix)"],"scenarios":["unbind with the handle kept alive","last handle dropped","server closes after a reply"]}));
     rep
+}
+
+// ---------------- a Search abandoned while its stream is still being read ----------------
+
+/// Every search stream completes: a Search abandoned through another handle while its stream is
+/// Active (the server honours the Abandon by sending nothing more, and stays connected) must wake
+/// its reader with an error instead of leaving next() waiting; other work goes on.
+pub fn abandoned_streams(ctx: &Ctx) -> Report {
+    use crate::world::{invoke, Call};
+    let n = ctx.n(3_000, 1_000_000);
+    par_cases(ctx, "abandoned_streams", n, ctx.secs(10, 200), |i, rng, rep| {
+        let sent = rng.usize(5);
+        let read = rng.usize(sent + 1);
+        let adapted = rng.bool();
+        let reader_waiting = rng.bool();
+        let rt = runtime(rng.next());
+        let (after, other, drv) = rt.block_on(async move {
+            let c = connect();
+            let ldap = c.ldap;
+            let mut server = c.server;
+            let srv = tokio::spawn(async move {
+                while let Some(w) = server.request().await {
+                    if let Ok(m) = w.msg {
+                        match &m.op {
+                            crate::msg::Req::Search { .. } => {
+                                let mut bytes = vec![];
+                                for k in 0..sent {
+                                    bytes.extend_from_slice(&ber::encode_min(&resp_node(m.id, &Resp::Entry { dn: format!("e={}", k).into_bytes(), attrs: vec![] }, None)));
+                                }
+                                server.send(&bytes);
+                            }
+                            // the Abandon is honoured: nothing more for that Search, no answer to the Abandon
+                            crate::msg::Req::Abandon(_) => {}
+                            op => {
+                                if let Some(r) = crate::msg::reply_for(op, Res::ok("t:other")) {
+                                    server.send(&ber::encode_min(&resp_node(m.id, &r, None)));
+                                }
+                            }
+                        }
+                    }
+                }
+            });
+            let mut l = ldap.clone();
+            let st = if adapted {
+                let ad: Vec<Box<dyn ldap3::adapters::Adapter<'static, &str, Vec<&str>>>> = vec![Box::new(ldap3::adapters::EntriesOnly::new())];
+                l.streaming_search_with(ad, "op=1", ldap3::Scope::Subtree, "(a=b)", vec!["*"]).await
+            } else {
+                l.streaming_search("op=1", ldap3::Scope::Subtree, "(a=b)", vec!["*"]).await
+            };
+            let mut st = match st {
+                Ok(s) => s,
+                Err(e) => return (vec![format!("START:{}", world::err_class(&e))], String::new(), String::new()),
+            };
+            for _ in 0..read {
+                let _ = world::watchdog(st.next()).await;
+            }
+            let id = st.ldap_handle().last_id();
+            let mut la = ldap.clone();
+            let mut after: Vec<String> = vec![];
+            if reader_waiting {
+                // the reader is already waiting in next() when the Abandon goes out
+                let reader = tokio::spawn(async move {
+                    let mut log = vec![];
+                    for _ in 0..sent + 2 {
+                        match world::watchdog(st.next()).await {
+                            Ok(Ok(Some(_))) => log.push("item".to_string()),
+                            Ok(Ok(None)) => {
+                                log.push("END:Ok(None)".into());
+                                break;
+                            }
+                            Ok(Err(e)) => {
+                                log.push(format!("END:Err({})", world::err_class(&e)));
+                                break;
+                            }
+                            Err(()) => {
+                                log.push("END:Hung".into());
+                                break;
+                            }
+                        }
+                    }
+                    let r = st.finish().await;
+                    log.push(format!("FINISH:rc={}", r.rc));
+                    log
+                });
+                world::settle().await;
+                let _ = invoke(&mut la, &Call::Abandon(id)).await;
+                after = reader.await.unwrap_or_default();
+            } else {
+                let _ = invoke(&mut la, &Call::Abandon(id)).await;
+                world::settle().await;
+                for _ in 0..sent + 2 {
+                    match world::watchdog(st.next()).await {
+                        Ok(Ok(Some(_))) => after.push("item".to_string()),
+                        Ok(Ok(None)) => {
+                            after.push("END:Ok(None)".into());
+                            break;
+                        }
+                        Ok(Err(e)) => {
+                            after.push(format!("END:Err({})", world::err_class(&e)));
+                            break;
+                        }
+                        Err(()) => {
+                            after.push("END:Hung".into());
+                            break;
+                        }
+                    }
+                }
+                let r = st.finish().await;
+                after.push(format!("FINISH:rc={}", r.rc));
+                drop(st);
+            }
+            let mut lo = ldap.clone();
+            let other = match world::watchdog(invoke(&mut lo, &Call::Delete { dn: "op=2".into() })).await {
+                Ok(o) => o.class(),
+                Err(()) => "Hung".into(),
+            };
+            drop(ldap);
+            drop(l);
+            drop(la);
+            drop(lo);
+            let _ = srv.await;
+            (after, other, format!("{:?}", c.driver.await))
+        });
+        let replay = json!({"lane":"abandoned_streams","case":i});
+        let kind = if adapted { "behind-entries-only" } else { "direct" };
+        if after.iter().any(|s| s == "END:Hung") {
+            rep.violation(format!("C04:abandoned-search-stream-never-ends:{}{}", kind, if reader_waiting { ":reader-waiting-in-next()" } else { "" }), format!("{} of {} items read, then Abandon from another handle, server silent afterwards: {:?}", read, sent, after), replay.clone());
+        } else if !after.iter().any(|s| s.starts_with("END:")) {
+            rep.violation(format!("C04:abandoned-search-stream-does-not-end:{}", kind), format!("{:?}", after), replay.clone());
+        }
+        if other != "Ok" {
+            rep.violation("C04:operation-after-an-abandon-does-not-complete", format!("{}; driver {}", other, drv), replay.clone());
+        }
+        if !drv.starts_with("Ok(Ok(Ok(") {
+            rep.violation("C04:driver-does-not-end-cleanly-after-an-abandon", drv.clone(), replay);
+        }
+        rep.count(&format!("abandoned_stream_{}", kind), 1);
+        rep.case(Some(fnv(format!("{}{}{}{}", sent, read, adapted, reader_waiting).as_bytes())));
+    })
 }
